@@ -556,6 +556,7 @@ def run(c):
     c.obligation('sem:v2-namespace-vs-reading', f2 + f3 == 0, 'correspondence', '%d strings' % (len(sem_const) + len(sem_sided)))
     c.obligation('corr:v2-namespace-vs-model', not (p2 or p3), 'correspondence', '%d strings, %d disagreements' % (len(sem_const) + len(sem_sided), len(p2) + len(p3)))
 
+    lean_src_stream(c, v2, rng, ctx, rec, var_shapes, fn_shapes, quick)
     f4 = v1_stream(c, rng, sctx, quick)
 
     # ---------------------------------------------------------------- verdicts for model / code disagreements
@@ -569,6 +570,49 @@ def run(c):
             c.broken_no_input(name, what, replay)
     for b in broken:
         c.broken_no_input('proof', b, dict(detail=b))
+
+
+def lean_src_stream(c, v2, rng, ctx, rec, var_shapes, fn_shapes, quick):
+    """ties `Src.print` / `elabExpr` of Model/C19Src.lean (the objects of theorem parse_print_partial) to the strings
+    and the real parser: the Lean printer must produce the harness' canonical printing, and the real parser's result
+    on that string must be the direct elaboration of the tree"""
+    gen = G.Gen(rng, ctx, sides=True, core=True)
+    n_ast = 150 if quick else 4000
+    trees = []
+    for k in range(n_ast):
+        depth = rng.choice([0, 1, 2, 2, 3, 3, 4, 5, 6])
+        nfree = rng.choice([0, 0, 1, 1, 2, 3])
+        free = [(l, rng.choice([2, 2, 3])) for l in rng.sample(G.LETTERS, nfree)]
+        ast, _ = gen.top(free, depth)
+        todo = [ast]
+        for _ in range(2):
+            kind, bad = G.violate(ast, rng, ctx)
+            if kind != 'none': todo.append(bad)
+        for t in todo:
+            toks = G.src_tokens(t)
+            if toks is not None: trees.append((t, toks))
+    vars_f, fns_f = ctx_field(var_shapes), ctx_field(fn_shapes)
+    ans = c.model(['src|%s|%s|%s' % (vars_f, fns_f, ' '.join(toks)) for _, toks in trees])
+    nbad = 0; first = None
+    for (t, toks), a in zip(trees, ans):
+        f = a.split('|')
+        s = G.pr(t)
+        c.case(('src', s), nontrivial=True)
+        if f[0] == 'bad-request': raise Infra('driver rejected a src request: ' + ' '.join(toks))
+        lean_s = ''.join(chr(int(x)) for x in f[1].split())
+        r = real_parse(v2, rec, 'expr', s)
+        want = 'ok|' + '|'.join(f[3:]) if f[2] == 'some' else None
+        c.count('src-wellformed:' + f[0]); c.count('src-elab:' + f[2])
+        ok = lean_s == s and (f[0] == '0' or (want is not None and r == canon_model(want)) or (want is None and not r.startswith('ok')))   # outside `Src.ok` only the printer is compared
+        if not ok:
+            nbad += 1
+            first = first or dict(stream='lean-src', tokens=' '.join(toks), harness_print=s, lean_print=lean_s, wellformed=f[0], elab=a, real=r)
+        else:
+            c.traces += 1
+    c.obligation('corr:lean-print-elab-vs-real-parser', nbad == 0, 'correspondence', '%d trees, %d mismatches' % (len(trees), nbad))
+    c.log('stream 5 (Lean Src.print / elabExpr vs real parser): %d trees, %d mismatches' % (len(trees), nbad))
+    if nbad:
+        c.broken_no_input('corr:lean-print-elab', 'Lean printer / elaboration of source ASTs disagrees with the harness printer or the real parser', first)
 
 
 V1_FNS = dict(
